@@ -109,6 +109,12 @@ type Scanner struct {
 	allowAnnotation bool
 
 	hasTrailingCharacters bool
+
+	// foreignFound a sign that a byte which does not belong to the schema has
+	// been found after the top-level value (length computing mode); foreignAt is
+	// its index.
+	foreignFound bool
+	foreignAt    bytes.Index
 }
 
 type context struct {
@@ -166,28 +172,19 @@ func (s *Scanner) Length() uint {
 	if !s.lengthComputing {
 		panic(errs.ErrRuntimeFailure.F())
 	}
-	var length uint
 	for {
 		lex, ok := s.Next()
-		if !ok {
-			// Everything up to the end belongs to the schema: a user comment
-			// after the last value is counted here as it is when other text
-			// follows the schema.
-			length = uint(s.dataSize)
+		if !ok || lex.Type() == lexeme.EndTop {
 			break
 		}
+	}
 
-		if lex.Type() == lexeme.EndTop {
-			// Found character after the end of the schema and spaces.
-			// Example: char "s" in "{} some text"
-			length = uint(lex.End()) - 1
-			break
-		}
-
-		length = uint(lex.End()) + 1
-		if lex.End() == s.dataSize {
-			length--
-		}
+	// The schema ends where the first byte that does not belong to it was found
+	// (example: char "s" in "{} some text"), or with the text. A user comment
+	// after the last value is a part of it in both cases.
+	length := uint(s.dataSize)
+	if s.foreignFound {
+		length = uint(s.foreignAt)
 	}
 	for ; length > 0; length-- {
 		c := s.data.Byte(length - 1)
@@ -926,6 +923,10 @@ func stateEndTop(s *Scanner, c byte) state {
 
 	case !bytes.IsBlank(c):
 		if s.lengthComputing {
+			if !s.foreignFound {
+				s.foreignFound = true
+				s.foreignAt = s.index - 1
+			}
 			if s.stack.Len() > 0 {
 				// Looks like we have invalid schema, and we should keep scanning.
 				s.hasTrailingCharacters = true
